@@ -29,6 +29,10 @@ type sliceDecoder struct {
 }
 
 func (valdec sliceDecoder) Decode(dec *Decoder, p interface{}, tag byte) {
+	if !dec.enter() {
+		return
+	}
+	defer dec.leave()
 	switch tag {
 	case TagNull:
 		valdec.t.UnsafeSetNil(reflect2.PtrOf(p))
